@@ -25,8 +25,23 @@
    [print_cnf] is [render_dimacs []].
 
    LAYOUTS THAT THE FORMATS ALLOW BUT THE GO READERS REJECT are NOT generated
-   (the theorems of Properties/C13.v would be false); they are listed in
-   Proofs/Text.v, each with a kernel-checked example ([finding_*]). *)
+   (the theorems of Properties/C13.v would be false).  Each of them is a
+   finding about gophersat, with a kernel-checked example in Proofs/Text.v:
+     D1 DIMACS  header line without final end of line (file "p cnf 0 0")  -> error
+     D2 DIMACS  last clause empty ("0") and no final end of line   -> clause lost
+     O1 OPB     no blank between the relation and the right-hand side (">=2") -> error
+     O2 OPB     no blank after "min:"                                  -> error
+     O3 OPB     blank after the final ';', or a line of blanks only   -> error
+     O4 OPB     "#variable= n" ignored: NbVars = highest variable used
+     O5 OPB     a line of 65536 bytes or more (bufio.Scanner)          -> error
+     W1 WCNF    a line of blanks only                                  -> panic
+     W2 WCNF    a line of 65536 bytes or more -> rest of the file silently dropped
+     W3 WCNF    clause on two lines -> silently misread (terminator not checked)
+     E1 explain comment "c" not followed by a blank ("cfoo")          -> error
+     E2 explain several clauses on a line / a clause on several lines -> misread
+     E3 explain a line of 65536 bytes or more                          -> error
+   (render_dimacs does generate multi-line clauses and shared lines: they are
+   read correctly by solver.ParseCNF; render_explain is one clause per line.) *)
 From Coq Require Import List ZArith Bool NArith String Ascii.
 From GS Require Import Spec.Base Spec.PB Spec.Solver Model.Text.
 Import ListNotations.
